@@ -16,7 +16,8 @@
 (*     parse as above;  enc {k, result, panic}  NegotiateContentEncoding   *)
 (*  "opaque" hdrs (arbitrary bytes), offers, dflt: only totality and       *)
 (*           result \in offers \cup {default}                              *)
-(*     oparse {panic}; oct {result, panic}; oenc {result, panic};          *)
+(*     oparse {panic}; oparse2 {panic}; oct {result, panic};               *)
+(*     oenc {result, panic};                                               *)
 (*     oapi {status, panic}                                                *)
 EXTENDS Negotiate, Json, IOUtils
 
@@ -105,6 +106,7 @@ NAllowed(s, e) ==
     [] e.ev = "api"    -> APIOK(s, e)
     [] e.ev = "enc"    -> EncOK(s, e)
     [] e.ev = "oparse" -> ~e.panic
+    [] e.ev = "oparse2" -> ~e.panic          \* header.ParseAccept2 / ParseList / ParseValueAndParams on the same lines
     [] e.ev = "oct"    -> ~e.panic /\ e.result \in (Rng(s.offers) \cup {s.dflt})
     [] e.ev = "oenc"   -> ~e.panic /\ e.result \in (Rng(s.offers) \cup {IDENTITY, <<>>})
     [] e.ev = "oapi"   -> ~e.panic /\ e.status \in {200, 406}
@@ -115,7 +117,7 @@ NWhy(s, e) ==
     [] e.ev = "ct"     -> CTWhy(s, e)
     [] e.ev = "api"    -> APIWhy(s, e)
     [] e.ev = "enc"    -> IF e.panic THEN "encoding-panics" ELSE "encoding-result-is-not-the-best-coding"
-    [] e.ev \in {"oparse", "oct", "oenc", "oapi"} ->
+    [] e.ev \in {"oparse", "oparse2", "oct", "oenc", "oapi"} ->
          IF e.panic THEN "arbitrary-bytes-panic" ELSE "arbitrary-bytes-result-neither-offer-nor-default"
     [] OTHER -> "unknown-event"
 
